@@ -163,6 +163,8 @@ def run_case(case, ctx):
                 conditional = True
             if bad.get("additional_algorithm", 1) is None and len(bad) == 1:
                 must_raise, conditional = False, True  # None = "no additional algorithm"
+            if set(bad) == {"checksum", "checksum_algorithm"} and bad["checksum"] is None and bad["checksum_algorithm"] is None:
+                must_raise, conditional = False, True  # both None = the ordinary call without validation
             if ("checksum" in bad) != ("checksum_algorithm" in bad) or cks_given:
                 allowed |= {"ValueError", "UnsupportedAlgorithm", "NonMatchingChecksum"}
             if set(bad) == {"checksum_algorithm"} and bad["checksum_algorithm"] is None:
